@@ -385,8 +385,11 @@ PROPS['C06'] = {
     'design_ref': 'DESIGN.md section 5 C06',
 }
 
+PACK_MODULES = ['contracts.fs_format', 'contracts.fs_load', 'contracts.blobmodel', 'contracts.serialize_refs',
+                'contracts.conflict', 'contracts.pack_gc', 'contracts.pack_swap', 'contracts.pack_copy']
+
 PROPS['C07'] = {
-    'modules': ['contracts.fs_format', 'contracts.serialize_refs', 'contracts.conflict', 'contracts.pack_gc'],
+    'modules': PACK_MODULES,
     'lemmas': [],
     'level': 'other',
     'explanation': 'proved: the reachability pass of the FileStorage packer (what is kept); bounded (labelled): the '
@@ -410,10 +413,14 @@ PROPS['C07'] = {
             'its revision current at the pack time, all its references kept or still queued - multiset invariant); '
             'GC.findReachableFromFuture establishes KEEP-BACK (every back pointer crossing the pack position names a '
             'kept revision) and KEEP-CLOSED (the references of EVERY kept revision are kept objects); '
-            'GC.findReachable composes them from the constructor state; GC.isReachable is the kept predicate. '
-            'BOUNDED only: the copy phase (copyToPacktime/copyDataRecords/copyRest/copyOne/PackCopier), the index of '
-            'the packed file, blobs, MappingStorage.pack/DemoStorage.pack and the statement as observed through '
-            'load/iterator/undo - by the before/after harness.',
+            'GC.findReachable composes them from the constructor state; GC.isReachable is the kept predicate; '
+            'FileStoragePacker.pack/copyRest/copyOne: the packer returns, holding the commit lock, only after an '
+            'end-of-file test at the frontier of the copy against the REAL end of the data file (transactions committed '
+            'while it ran are consumed; rely: other threads append only while the lock is free); FileStorage.pack installs '
+            'the packed file, its index and end position. '
+            'BOUNDED only: the CONTENT written by the copy phase (copyToPacktime/copyDataRecords/copyOne/PackCopier), '
+            'blobs, MappingStorage.pack/DemoStorage.pack and the statement as observed through load/iterator/undo - by the '
+            'before/after harness (incl. a commit from another thread in each packer phase).',
     'note': 'Assumes RI-TILING of the input file, A-REFERENCESF (classification proved in C14), A-DICT-OF-LISTS, the list '
             'multiset model. Garbage as of the pack time that a later state references again WITHOUT writing it is '
             'removed (allowed by the first sentence of the property; the harness exempts exactly those objects).',
@@ -421,7 +428,7 @@ PROPS['C07'] = {
 }
 
 PROPS['C08'] = {
-    'modules': ['contracts.fs_format', 'contracts.fs_load', 'contracts.blobmodel', 'contracts.pack_swap'],
+    'modules': PACK_MODULES,
     'lemmas': [],
     'level': 'other',
     'explanation': 'proved: sequential contracts, lock ownership, call ordering and crash-Hoare obligations of the swap in '
@@ -445,8 +452,13 @@ PROPS['C08'] = {
             'returned with is still held; after the swap the handle is open on the packed file, the packer\'s index and end '
             'position are installed, .old is kept iff asked; crash-Hoare: after every rename/remove the ghost directory must '
             'name a complete database as Data.fs - this FAILS between the two renames (open finding F6, printed as '
-            'KNOWN-FINDING). BOUNDED only: thread schedules, the packer\'s lock hand-over per copied transaction, crash '
-            'images and failure injection on the real code.',
+            'KNOWN-FINDING). PROVED for the packer under a rely condition (other threads only append, and only while the '
+            'commit lock is free - applied as an environment step at every acquisition): copyOne releases the lock after '
+            'reading the header and holds it again on return (LOCKFLAG: self.locked <=> lock held, also on every exception), '
+            'returns the next transaction boundary; copyRest returns only after an end-of-file test at the frontier against '
+            'the real file end with the lock held; FileStoragePacker.pack returns None without the lock, or a position WITH '
+            'the lock and the data file consumed to its real end, and releases the lock on every exception; FileStorage.packer '
+            'closes the packer files on every path. BOUNDED only: real thread schedules, crash images, failure injection.',
     'note': 'NOT covered deductively: the schedule quantifier (T3: code between lock operations is atomic). A-DIRECTORY, '
             'A-PACKER-RESULT, A-FILEPOOL assumed. F8 (flag stuck) fixed; F6 (non-atomic swap) open.',
     'design_ref': 'DESIGN.md section 5 C08',
